@@ -835,6 +835,9 @@ def spec_views(rp, rt):
 # ------------------------------------------------------------------------------------------------------------------------------------
 # running one history on the window
 # ------------------------------------------------------------------------------------------------------------------------------------
+SETTINGS_LOG = []      # (settings before, OK?, edits (norm, nperseg, nbins), settings after) of every settings dialog of the run
+
+
 class Runner:
     def __init__(self, env, chk=None, fresh=False):
         self.env, self.chk = env, chk
@@ -936,7 +939,10 @@ class Runner:
                 self.shape["late_values"].append(ev)
             _scripted_exec.script = (acc, vals[0], vals[1], vals[2])
             shown0 = _scripted_exec.shown
+            before = (bool(w.psd_normalized()), int(w.psd_nperseg()), int(w.rfc_nbins()), int(w.twin_ndec()))
             w.on_open_settings()
+            after = (bool(w.psd_normalized()), int(w.psd_nperseg()), int(w.rfc_nbins()), int(w.twin_ndec()))
+            SETTINGS_LOG.append((before, acc, tuple(vals), after))
             self.dialogs += _scripted_exec.shown - shown0
             for d in w.findChildren(env.gui.SettingsDialog):
                 d.deleteLater()
@@ -1408,6 +1414,37 @@ def compare_with_model(chk, drv, runs):
                 break
 
 
+def compare_settings_with_model(chk, drv):
+    """every settings dialog of the run against the Lean model Qats.GuiSettings (theorems settings_dialog_spec,
+    settings_stay_in_range): the application settings after the dialog are what the model says for the settings before it"""
+    log, SETTINGS_LOG[:] = list(SETTINGS_LOG), []
+    lines = []
+    for before, acc, vals, after in log:
+        ed = ":".join("-" if v is None else str(int(v)) for v in (vals[0], vals[1], vals[2], None))
+        lines.append("gui.settings %d %d %d %d %d:%s" % (1 if before[0] else 0, before[1], before[2], before[3], 1 if acc else 0, ed))
+    outs = drv.run(lines) if lines else []
+    for (before, acc, vals, after), o in zip(log, outs):
+        chk.count("gui.settings")
+        obs = "%d,%d,%d,%d" % (1 if after[0] else 0, after[1], after[2], after[3])
+        mod = o.split()[1] if o.startswith("ok ") else o
+        inp = dict(kind="settings-dialog", before=list(before), ok=bool(acc), edits=list(vals))
+        if mod != obs:
+            chk.disagree("gui.settings", inp, mod, obs)
+        # clause of the property itself: the application settings are the ones the user chose (Cancel / untouched OK change nothing)
+        want = list(before)
+        if acc:
+            if vals[0] is not None:
+                want[0] = bool(vals[0])
+            if vals[1] is not None:
+                want[1] = max(100, min(100000, int(vals[1])))
+            if vals[2] is not None:
+                want[2] = max(10, min(1000, int(vals[2])))
+        if list(after) != want:
+            chk.fail("File > Settings changes exactly the settings the user edited (Cancel and an untouched OK change nothing)", inp, want, list(after))
+        elif acc and any(v is not None for v in vals):
+            chk.nontriv(("settings", tuple(before), tuple(vals)))
+
+
 def run(chk):
     chk.extra["rule"] = RULE
     chk.assumptions += [
@@ -1503,6 +1540,7 @@ def run(chk):
                     two_request_history(r, variant, seq)
                     finish(r, "two-requests-sampled")
         compare_with_model(chk, drv, runs)
+        compare_settings_with_model(chk, drv)
         if runs:
             chk.sample(dict(events=runs[-1].events[:12], digest_after_last=runs[-1].digests[-1]))
         chk.extra["windows_created"] = env.windows
@@ -1537,6 +1575,29 @@ def replay(rp):
                 print("FAILS: %s\n   input %s\n   expected %s\n   observed %s" % (f["oracle"], f["input"], f["expected"], f["observed"]))
             print("replay: %d failing clause(s)" % len(hits))
             return 1 if hits else 0
+        finally:
+            env.close()
+    if inp.get("kind") == "settings-dialog":
+        env = Env()
+        try:
+            r = Runner(env, None, fresh=True)
+            b = inp["before"]
+            env.win.settings.update({"psd_normalized": bool(b[0]), "psd_nperseg": int(b[1]), "rfc_nbins": int(b[2]), "twin_ndec": int(b[3])})
+            del SETTINGS_LOG[:]
+            r.do("set:%d:%s" % (1 if inp["ok"] else 0, ":".join("-" if v is None else str(int(v)) for v in inp["edits"])))
+            before, acc, vals, after = SETTINGS_LOG[-1]
+            want = list(before)
+            if acc:
+                if vals[0] is not None:
+                    want[0] = bool(vals[0])
+                if vals[1] is not None:
+                    want[1] = max(100, min(100000, int(vals[1])))
+                if vals[2] is not None:
+                    want[2] = max(10, min(1000, int(vals[2])))
+            print("settings before", list(before), "dialog", "OK" if acc else "Cancel", list(vals), "-> after", list(after), "expected", want)
+            bad = list(after) != want
+            print("replay: %d failing clause(s)" % (1 if bad else 0))
+            return 1 if bad else 0
         finally:
             env.close()
     if not inp.get("events"):
